@@ -51,7 +51,7 @@ MODELLED = ('Segmentation.__init__ pixel path (_check_segment_numbers, bit depth
             'geometry (plane sorting, taken as input), dataset attribute copying, codecs, file I/O, the memory '
             'layout of the input numpy array (the model sees values only; layouts are exercised, kind rt_layout).')
 STRATA = ['rt', 'rt_mf', 'rt_nofor', 'rt_encaps', 'rescale', 'malformed', 'odd', 'pack', 'frame_at', 'rhe',
-          'rt_layout', 'rt_hist', 'observe', 'sched']
+          'rt_layout', 'rt_hist', 'observe', 'sched', 'rt_tiled', 'rt_tiled_frames', 'tiled_bad']
 RULE = ('rt*: rows x cols with every residue of rows*cols mod 8 incl. < 8 pixels, 1..5 planes x 1..4 segments, '
         'masks empty/full/sparse/per-segment-empty planes, dtype bool/uint8/uint16/float32/float64, label-map and '
         'stacked layouts (2-D/3-D/4-D), BINARY/FRACTIONAL/LABELMAP (sparse and > 255 segment numbers), '
@@ -213,13 +213,13 @@ def _segs(rng, ty, S):
     return list(range(1, S + 1))
 
 
-def _valid_case(rng, kind, source='series', ts=None, big=False, force_ty=None):
+def _valid_case(rng, kind, source='series', ts=None, big=False, force_ty=None, shape=None, planes=None):
     ty = force_ty or rng.choice(['BINARY', 'FRACTIONAL', 'LABELMAP'])
     if ts in ('rle', 'jpegls') and ty == 'BINARY':
         ty = rng.choice(['FRACTIONAL', 'LABELMAP'])
-    rows, cols = _shape(rng, big)
+    rows, cols = shape or _shape(rng, big)
     n = rows * cols
-    P = 1 if source == 'nofor' else rng.randint(1, 3 if big else 5)
+    P = planes or (1 if source == 'nofor' else rng.randint(1, 3 if big else 5))
     S = rng.randint(1, 2 if big else 4)
     segs = _segs(rng, ty, S)
     layout = rng.choice(['stack', 'label'])
@@ -276,7 +276,7 @@ def _valid_case(rng, kind, source='series', ts=None, big=False, force_ty=None):
     c = {'kind': kind, 'ty': ty, 'layout': layout, 'dtype': dtype, 'den': den, 'maxfrac': mf, 'omit': omit,
          'segs': segs, 'rows': rows, 'cols': cols, 'srows': rows, 'scols': cols, 'P': P, 'nsrc': P,
          'data': data, 'zrank': zrank, 'ts': ts, 'workers': workers, 'source': source, 'two_d': two_d,
-         'req': req, 'assert_missing': source == 'mf' and rng.random() < 0.8, 'byframe': source == 'mf',
+         'req': req, 'assert_missing': source in ('mf', 'sm') and rng.random() < 0.8, 'byframe': source in ('mf', 'sm'),
          'mem': rng.choice(MEM[1:]) if rng.random() < 0.12 else 'C'}
     return c
 
@@ -563,6 +563,110 @@ def _sched_case(rng):
     return c
 
 
+# --------------------------------------------------------------------------
+# tiled (slide microscopy) sources
+# --------------------------------------------------------------------------
+# tile sizes: every residue of th*tw mod 8 that a small tile can have, square and both oblong orientations
+TILE_SIZES = [(1, 1), (1, 3), (2, 2), (2, 3), (3, 2), (3, 3), (1, 5), (4, 2), (2, 5), (3, 5), (4, 4), (5, 3), (2, 7)]
+
+
+def _cdiv(a, b):
+    return -(-a // b)
+
+
+def _grid(rng, th, tw, lim=150):
+    """size R x C of a total pixel matrix covered by 1..3 x 1..3 tiles of th x tw: every residue of R mod th
+    and C mod tw, biased (80 %) towards a matrix that is NOT a whole number of tiles in at least one direction"""
+    while True:
+        ntr, ntc = rng.randint(1, 3), rng.randint(1, 3)
+        R = (ntr - 1) * th + rng.randint(1, th)
+        C = (ntc - 1) * tw + rng.randint(1, tw)
+        if R * C > lim:
+            continue
+        if (R % th or C % tw) or th * tw == 1 or rng.random() < 0.2:
+            return R, C
+
+
+def _tiled_case(rng, mode=None, ts=None):
+    """the mask of a tiled multi-frame source handed over as ONE total pixel matrix (tile_pixel_array=True); the
+    library cuts it into frames itself.  mode tpm: same tile size as the source, TILED_SPARSE - every stored frame
+    refers to the source frame it lies under, read back by source frame; tpm_full: TILED_FULL organisation (no
+    per-frame items; by-frame indexing is refused as documented), tpm_size: another tile size than the source
+    (no source frame references) - for both the stored frames and get_total_pixel_matrix are observed"""
+    mode = mode or rng.choice(['tpm'] * 6 + ['tpm_full', 'tpm_size', 'tpm_size'])
+    big = ts == 'jpegls'
+    th, tw = rng.choice([(8, 8), (8, 9)]) if big else rng.choice(TILE_SIZES)
+    R, C = _grid(rng, th, tw, lim=300 if big else 150)
+    c = _valid_case(rng, 'rt_tiled', source='sm', ts=ts, shape=(R, C), planes=1, big=big)
+    sth, stw = th, tw
+    if mode == 'tpm_size':
+        sth, stw = rng.choice([t for t in TILE_SIZES if t != (th, tw)])
+    if mode == 'tpm_full' and _nonzero(c):
+        c['omit'] = False      # TILED_FULL + omit_empty_frames is refused - unless the mask is entirely empty
+    nsrc = _cdiv(R, sth) * _cdiv(C, stw)
+    u = rng.random()
+    req = list(range(1, nsrc + 1))
+    if u < 0.15:
+        rng.shuffle(req)
+    elif u < 0.35:
+        req = [rng.randint(1, nsrc) for _ in range(rng.randint(1, nsrc + 1))]
+    c.update(mode=mode, th=th, tw=tw, sth=sth, stw=stw, nsrc=nsrc, src_full=rng.random() < 0.5,
+             explicit_size=mode == 'tpm_size' or rng.random() < 0.3, req=req, req_is_numbers=True, sR=R, sC=C,
+             byframe=True, assert_missing=rng.random() < 0.85, workers=0 if c['workers'] == 2 else c['workers'])
+    return c
+
+
+def _tiled_frames_case(rng):
+    """the same kind of source, the mask handed over frame by frame (tile_pixel_array=False): one plane per source
+    frame; a TILED_SPARSE source may list its frames in any order (forder[k] = tile index of source frame k)"""
+    th, tw = rng.choice(TILE_SIZES)
+    R, C = _grid(rng, th, tw)
+    n = _cdiv(R, th) * _cdiv(C, tw)
+    c = _valid_case(rng, 'rt_tiled_frames', source='sm', shape=(th, tw), planes=n,
+                    ts=rng.choice([None, None, None, 'rle']))
+    forder = list(range(n))
+    src_full = rng.random() < 0.4
+    if not src_full and rng.random() < 0.7:
+        rng.shuffle(forder)
+    c.update(R=R, C=C, th=th, tw=tw, src_full=src_full, forder=forder, nsrc=n,
+             perm=sorted(range(n), key=lambda k: forder[k]), workers=0 if c['workers'] == 2 else c['workers'])
+    return c
+
+
+def _tiled_bad(rng):
+    """every guard of the tile_pixel_array entry point violated once"""
+    which = rng.choice(['t_planes', 't_shape', 't_shape', 't_not_tiled', 't_full_omit', 't_dtype', 't_undescribed'])
+    c = _tiled_case(rng, mode='tpm_full' if which == 't_full_omit' else 'tpm')
+    c['kind'], c['which'] = 'tiled_bad', which
+    n = c['rows'] * c['cols']
+    if which == 't_planes':
+        c['P'] = 2
+        c['data'] = [c['data'][0], c['data'][0]]
+        c['two_d'] = False
+    elif which == 't_shape':
+        if rng.random() < 0.5:
+            c['sR'] = c['rows'] + rng.choice([1, -1]) if c['rows'] > 1 else c['rows'] + 1
+        else:
+            c['sC'] = c['cols'] + rng.choice([1, -1]) if c['cols'] > 1 else c['cols'] + 1
+    elif which == 't_full_omit':
+        c['omit'] = True       # refused only if omission stays on, i.e. the mask is not entirely empty
+        k = rng.randrange(n)
+        if c['layout'] == 'label':
+            c['data'][0][k] = c['segs'][0] * (c['den'] if c['dtype'] in FLT_DT else 1)
+        else:
+            c['data'][0][k] = [c['den'] if c['dtype'] in FLT_DT else 1] + [0] * (len(c['segs']) - 1)
+    elif which == 't_dtype':
+        c['dtype'], c['den'] = rng.choice(['int64', 'int16', 'uint32', '>u2', '>f4']), 1
+        S = len(c['segs'])
+        c['data'] = [[0] * n] if c['layout'] == 'label' else [[[0] * S for _ in range(n)]]
+    elif which == 't_undescribed':
+        c['layout'], c['dtype'], c['den'], c['two_d'] = 'label', 'uint16', 1, False
+        bad = rng.choice([v for v in range(1, 9) if v not in c['segs']] + [max(c['segs']) + 1])
+        c['data'] = [[0] * n]
+        c['data'][0][rng.randrange(n)] = bad
+    return c
+
+
 def _tame(c):
     """JPEG-LS cases: the installed pyjpegls fails ('destination buffer too small') on small
     noisy frames, a limitation of the codec plugin; keep these masks low-entropy (sparse, and
@@ -638,6 +742,19 @@ def gen_cases(rng, tier):
         cases.append(_observe_case(rng))
     for _ in range(16 * N):
         cases.append(_sched_case(rng))
+    # tiled sources: the mask as one total pixel matrix (every mode at least twice), frame by frame, refusals
+    for m in ('tpm', 'tpm', 'tpm_full', 'tpm_full', 'tpm_size', 'tpm_size'):
+        cases.append(_tiled_case(rng, mode=m))
+    for _ in range(36 * N):
+        cases.append(_tiled_case(rng))
+    for _ in range(8 * N):
+        cases.append(_tiled_case(rng, ts='rle'))
+    for _ in range(3 * N):
+        cases.append(_tame(_tiled_case(rng, ts='jpegls')))
+    for _ in range(16 * N):
+        cases.append(_tiled_frames_case(rng))
+    for _ in range(12 * N):
+        cases.append(_tiled_bad(rng))
     # pydicom packing
     for k in list(range(0, 20)) + [rng.randint(20, 70) for _ in range(10 * N)]:
         cases.append({'kind': 'pack', 'px': [rng.choice([0, 1]) for _ in range(k)]})
@@ -662,15 +779,25 @@ def gen_cases(rng, tier):
     return cases
 
 
+def _tpm(c):
+    """is the mask of this case ONE total pixel matrix that the library tiles itself?"""
+    return c['kind'] in ('rt_tiled', 'tiled_bad')
+
+
+def _npix(c):
+    """pixels per stored frame"""
+    return c['th'] * c['tw'] if _tpm(c) else c['rows'] * c['cols']
+
+
 def _normalise(c):
     if c['kind'] in ('pack', 'frame_at', 'rhe'):
         return
     if c['source'] == 'nofor':
         c['zrank'] = [0]
-    if c['source'] == 'mf' and not c.get('req_is_numbers'):
+    if c['source'] in ('mf', 'sm') and not c.get('req_is_numbers'):
         c['req'] = [r + 1 for r in c['req']]
         c['req_is_numbers'] = True
-    if c['ts'] == 'jpegls' and c['rows'] * c['cols'] < 64:
+    if c['ts'] == 'jpegls' and _npix(c) < 64:
         c['ts'] = 'rle'
     if c['ty'] == 'BINARY' and c['ts'] in ('rle', 'jpegls') and c.get('which') != 'binary_encaps':
         c['ts'] = 'explicit'
@@ -740,6 +867,17 @@ def _sources(c):
     zs = [2.5 * r for r in c['zrank']]
     if c['source'] == 'mf':
         return [synth.ct_multiframe(zs, c['srows'], c['scols'])]
+    if c['source'] == 'sm':
+        if c.get('which') == 't_not_tiled':
+            return [synth.ct_multiframe([0.0, 2.5], c['sth'], c['stw'])]
+        if _tpm(c):
+            return [synth.sm_tiled(c['sR'], c['sC'], c['sth'], c['stw'], tiled_full=c['src_full'])]
+        sm = synth.sm_tiled(c['R'], c['C'], c['th'], c['tw'], tiled_full=c['src_full'])
+        if not c['src_full']:
+            # a TILED_SPARSE image may list its frames in any order: source frame k is the tile forder[k]
+            items = list(sm.PerFrameFunctionalGroupsSequence)
+            sm.PerFrameFunctionalGroupsSequence = [items[t] for t in c['forder']]
+        return [sm]
     if c['source'] == 'nofor':
         return [synth.no_for_image(c['srows'], c['scols'])]
     src = synth.ct_series(n, c['srows'], c['scols'])
@@ -753,12 +891,43 @@ def _meta(seg, c, uids):
     for f in seg.PerFrameFunctionalGroupsSequence:
         s = int(f.SegmentIdentificationSequence[0].ReferencedSegmentNumber) if 'SegmentIdentificationSequence' in f else 0
         si = f.DerivationImageSequence[0].SourceImageSequence[0]
-        if c['source'] == 'mf':
+        if c['source'] in ('mf', 'sm'):
             j = int(si.ReferencedFrameNumber) - 1
         else:
             j = uids.index(si.ReferencedSOPInstanceUID)
         out.append([s, j])
     return out
+
+
+def _meta_tiled(seg, c):
+    """per stored frame (segment or 0, tile index) of a segmentation the library tiled itself: the tile index
+    (row-major over the tiles of the total pixel matrix) is taken from the plane position of the frame, for
+    TILED_FULL from the implied order (segment-major, tiles row-major); a source frame reference, where there
+    is one, must name the source frame lying under that tile"""
+    th, tw = c['th'], c['tw']
+    ntc = _cdiv(c['cols'], tw)
+    nt = _cdiv(c['rows'], th) * ntc
+    notes = []
+    if 'PerFrameFunctionalGroupsSequence' not in seg:
+        it = [0] if c['ty'] == 'LABELMAP' else c['segs']
+        return [[s, t] for s in it for t in range(nt)], notes
+    out = []
+    for k, f in enumerate(seg.PerFrameFunctionalGroupsSequence):
+        s = int(f.SegmentIdentificationSequence[0].ReferencedSegmentNumber) if 'SegmentIdentificationSequence' in f else 0
+        pp = f.PlanePositionSlideSequence[0]
+        r, q = int(pp.RowPositionInTotalImagePixelMatrix) - 1, int(pp.ColumnPositionInTotalImagePixelMatrix) - 1
+        if r % th or q % tw or not (0 <= r < c['rows'] and 0 <= q < c['cols']):
+            notes.append(f'stored frame {k + 1} is at matrix position ({r + 1}, {q + 1}), not on the tile grid')
+        t = (r // th) * ntc + q // tw
+        if 'DerivationImageSequence' in f and len(f.DerivationImageSequence) and c['mode'] == 'tpm':
+            si = f.DerivationImageSequence[0].SourceImageSequence[0]
+            if int(si.ReferencedFrameNumber) - 1 != t:
+                notes.append(f'stored frame {k + 1} lies under source frame {t + 1} but refers to source frame '
+                             f'{int(si.ReferencedFrameNumber)}')
+        elif c['mode'] == 'tpm':
+            notes.append(f'stored frame {k + 1} does not refer to the source frame it was derived from')
+        out.append([s, t])
+    return out, notes
 
 
 def _read(obj, c, uids, rescale=False):
@@ -893,10 +1062,17 @@ def _seg_case(c):
             multiprocessing.current_process()._config['daemon'] = False
         except Exception:
             pass
+    kw = {}
+    if _tpm(c):
+        kw['tile_pixel_array'] = True
+        if c['explicit_size']:
+            kw['tile_size'] = (c['th'], c['tw'])
+        if c['mode'] == 'tpm_full':
+            kw['dimension_organization_type'] = 'TILED_FULL'
     try:
         seg = catch(lambda: synth.make_seg(src, arr, c['ty'], c['segs'], max_fractional_value=c['maxfrac'],
                                            omit_empty_frames=c['omit'], transfer_syntax_uid=TS[c['ts']],
-                                           workers=workers))
+                                           workers=workers, **kw))
     finally:
         if pool is not None:
             pool.shutdown()
@@ -915,8 +1091,10 @@ def _seg_case(c):
             base[...] = (True if base.dtype == np.bool_ else 0)
     native = c['ts'] in ('implicit', 'explicit')
     nframes = int(seg.NumberOfFrames)
-    meta = _meta(seg, c, uids)
     pdata = list(bytes(seg.PixelData)) if native else []
+    if _tpm(c):
+        return _tiled_observe(seg, c, uids, extras, pdata)
+    meta = _meta(seg, c, uids)
     if c['kind'] == 'rescale':
         return _read(seg, c, uids, rescale=True)
     if c['kind'] == 'sched':
@@ -935,7 +1113,7 @@ def _seg_case(c):
                 grp = []
                 for k in range(frames.shape[0]):
                     si = frame_descs[k].DerivationImageSequence[0].SourceImageSequence[0]
-                    j = int(si.ReferencedFrameNumber) - 1 if c['source'] == 'mf' else uids.index(si.ReferencedSOPInstanceUID)
+                    j = int(si.ReferencedFrameNumber) - 1 if c['source'] in ('mf', 'sm') else uids.index(si.ReferencedSOPInstanceUID)
                     grp.append([j, np.asarray(frames[k]).ravel().tolist()])
                 it.append([int(desc.SegmentNumber), grp])
         pa = None
@@ -988,7 +1166,7 @@ def _seg_case(c):
                 s = int(desc.SegmentNumber)
                 for k in range(frames.shape[0]):
                     si = frame_descs[k].DerivationImageSequence[0].SourceImageSequence[0]
-                    j = int(si.ReferencedFrameNumber) - 1 if c['source'] == 'mf' else uids.index(si.ReferencedSOPInstanceUID)
+                    j = int(si.ReferencedFrameNumber) - 1 if c['source'] in ('mf', 'sm') else uids.index(si.ReferencedSOPInstanceUID)
                     if frames[k].ravel().tolist() != exp[(s, j)]:
                         extras.append(f'iter_segments frame of segment {s}, source {j} differs from the input')
                     seen += 1
@@ -1005,9 +1183,55 @@ def _seg_case(c):
     return out
 
 
+def _tiled_observe(seg, c, uids, extras, pdata):
+    """[NumberOfFrames; (segment, tile) per stored frame; PixelData; read by source frame of the in-memory, the
+    eagerly and the lazily read object; discrepancies; True; True; decoded stored frames of the read file]"""
+    import numpy as np
+    import highdicom as hd
+    nframes = int(seg.NumberOfFrames)
+    meta, notes = _meta_tiled(seg, c)
+    extras = extras + notes
+    r_mem = _read(seg, c, uids)
+    buf = io.BytesIO()
+    try:
+        seg.save_as(buf)
+        raw = buf.getvalue()
+        eager = hd.seg.segread(io.BytesIO(raw))
+        lazy = hd.seg.segread(io.BytesIO(raw), lazy_frame_retrieval=True)
+    except Exception as e:     # noqa
+        er = Err('write/read:' + type(e).__name__)
+        return [nframes, meta, pdata, r_mem, er, er, extras, True, True, []]
+    r_file = _read(eager, c, uids)
+    r_lazy = _read(lazy, c, uids)
+    dec = catch(lambda: np.asarray(eager.get_stored_frames()).reshape(nframes, -1).tolist())
+    # oracle-only observation (get_total_pixel_matrix is modelled by C04): the matrix handed over comes back
+    want = _expected(c)[0]
+    for nm, o in (('in-memory', seg), ('segread', eager), ('lazy segread', lazy)):
+        try:
+            t = np.asarray(o.get_total_pixel_matrix(rescale_fractional=False))
+            if t.shape[:2] != (c['rows'], c['cols']) or t.reshape(c['rows'] * c['cols'], -1).tolist() != want:
+                extras.append(f'{nm}: get_total_pixel_matrix differs from the total pixel matrix that was stored')
+        except Exception as e:     # noqa
+            extras.append(f'{nm}: get_total_pixel_matrix raised {type(e).__name__}: {str(e)[:80]}')
+    return [nframes, meta, pdata, r_mem, r_file, r_lazy, extras, True, True, dec]
+
+
+def _planes_expected(c):
+    """[source frame][pixel][segment] the user must get back; for a mask handed over as one total pixel
+    matrix: per tile (row-major) the part of the matrix under it, zero beyond the bottom / right edge"""
+    exp = _expected(c)
+    if not _tpm(c):
+        return exp
+    R, C, th, tw, S = c['rows'], c['cols'], c['th'], c['tw'], len(c['segs'])
+    m = exp[0]
+    return [[m[(a * th + i) * C + b * tw + j] if a * th + i < R and b * tw + j < C else [0] * S
+             for i in range(th) for j in range(tw)]
+            for a in range(_cdiv(R, th)) for b in range(_cdiv(C, tw))]
+
+
 def _stored_expected(c):
     """(segment or 0, plane) -> expected stored frame (flat list), from the input only"""
-    exp = _expected(c)
+    exp = _planes_expected(c)
     segs = c['segs']
     out = {}
     for j, pl in enumerate(exp):
@@ -1100,7 +1324,10 @@ def _cfg(c):
 
 
 def _perm(c):
-    # plane sort permutation supplied by geometry (premise G1): decreasing position along the normal
+    # plane sort permutation supplied by geometry (premise G1): decreasing position along the normal;
+    # frames of a tiled source: by (row, column) position in the total pixel matrix
+    if 'perm' in c:
+        return c['perm']
     return sorted(range(len(c['zrank'])), key=lambda i: -c['zrank'][i])
 
 
@@ -1122,6 +1349,16 @@ def coq_term(c):
         return f"(run_rhe {zlit(c['a'])} {zlit(c['b'])})"
     inp = f"(Stack {_zlll(c['data'])})" if c['layout'] == 'stack' else f"(Label {zll(c['data'])})"
     req = c['req']
+    if _tpm(c):
+        if c.get('which') == 't_not_tiled':
+            return None        # whether the source is tiled at all is outside the model (oracle only)
+        dt = 'DFloat' if c['dtype'] in FLT_DT else ('DInt' if c['dtype'] in INT_DT else 'DBad')
+        b = lambda x: 'true' if x else 'false'     # noqa
+        # cfg of a tiled case: rows/cols = tile size, srows/scols = total pixel matrix of the SOURCE
+        cfg = (f"(Cfg {c['ty']} {dt} {zlit(c['den'])} {zlit(c['maxfrac'])} {b(c['omit'])} {zl(c['segs'])} "
+               f"{c['th']} {c['tw']} {c['sR']} {c['sC']} {c['nsrc']} {b(c['ts'] in ('implicit', 'explicit'))})")
+        return (f"(run_tiled {cfg} {c['rows']} {c['cols']} {b(c['mode'] == 'tpm_full')} {b(c['mode'] == 'tpm')} "
+                f"{inp} {zl(req)} {b(c['assert_missing'])})")
     if k == 'rescale':
         return f"(run_rescaled {_cfg(c)} {inp} {zl(_perm(c))} {zl(req)})"
     if k == 'observe':
@@ -1140,8 +1377,8 @@ def coq_term(c):
 # independent oracle
 # --------------------------------------------------------------------------
 def _want_read(c):
-    exp = _expected(c)
-    n, S = c['rows'] * c['cols'], len(c['segs'])
+    exp = _planes_expected(c)
+    n, S = _npix(c), len(c['segs'])
     zero = [[0] * S for _ in range(n)]
     out = []
     for r in c['req']:
@@ -1175,6 +1412,9 @@ def oracle(c, out):
         return None if out == want else f'np.around({c["a"]}/{c["b"]}) = {out}, half-even gives {want}'
     if k == 'odd':
         return None
+    if k == 'tiled_bad':
+        want = 'TypeError' if c['which'] == 't_dtype' else 'ValueError'
+        return None if out == Err(want) else f'guard {c["which"]}: expected {want}, got {str(out)[:100]}'
     if k == 'malformed':
         w = c['which']
         want = {'dtype': 'TypeError', 'q_unknown': None if c['assert_missing'] else 'KeyError',
@@ -1213,21 +1453,32 @@ def oracle(c, out):
     if k in ('observe', 'sched'):
         return _oracle_observe(c, out)
     nframes, meta, pdata, r_mem, r_file, r_lazy, extras = out[:7]
-    if c['byframe'] and not c['assert_missing']:
+    noref = _tpm(c) and c['mode'] != 'tpm'
+    if noref:
+        # TILED_FULL organisation / another tile size than the source: no stored frame refers to a source frame;
+        # indexing by source frame is refused as documented - the stored frames are judged below
+        bad = [nm for nm, r in (('memory', r_mem), ('file', r_file), ('lazy', r_lazy)) if r != Err('RuntimeError')]
+        if bad:
+            return f'expected the documented RuntimeError for indexing by source frame ({c["mode"]}; {bad})'
+    elif c['byframe'] and not c['assert_missing']:
         # documented refusal: a requested frame number above every referenced frame
         maxref = max(j for _, j in meta) + 1
         if any(f > maxref for f in c['req']):
             bad = [nm for nm, r in (('memory', r_mem), ('file', r_file), ('lazy', r_lazy)) if r != Err('ValueError')]
             return None if not bad else f'expected the documented ValueError for frames above {maxref} ({bad})'
     for nm, r in (('in-memory', r_mem), ('segread', r_file), ('lazy segread', r_lazy)):
+        if noref:
+            break
         if isinstance(r, Err):
             return f'{nm}: read-back refused: {r}'
         if r != want:
             for o, (a, b) in enumerate(zip(r, want)):
                 if a != b:
                     p = next(i for i, (x, y) in enumerate(zip(a, b)) if x != y)
+                    tiled = (f', matrix {c["rows"]}x{c["cols"]} in tiles of {c["th"]}x{c["tw"]}, in-tile pixel '
+                             f'({p // c["tw"]}, {p % c["tw"]})') if _tpm(c) else ''
                     return (f'{nm}: source #{c["req"][o]} pixel {p}: got {a[p]}, input gives {b[p]} '
-                            f'(type {c["ty"]}, {c["rows"]}x{c["cols"]}, {c["dtype"]}, omit={c["omit"]})')
+                            f'(type {c["ty"]}, {c["rows"]}x{c["cols"]}, {c["dtype"]}, omit={c["omit"]}{tiled})')
             return f'{nm}: read-back has wrong shape'
     if extras:
         return extras[0]
@@ -1260,6 +1511,13 @@ def oracle(c, out):
             by = [x for v in flat for x in (v & 255, v >> 8)]
         if pdata[:len(by)] != by or len(pdata) % 2 or len(pdata) - len(by) > 1:
             return 'native PixelData is not the global packing of the stored frames'
+    if _tpm(c):
+        dec = out[9]
+        want_frames = [se[tuple(m)] for m in meta]
+        if dec != want_frames:
+            o = next((i for i, (a, b) in enumerate(zip(dec, want_frames)) if a != b), -1) if not isinstance(dec, Err) else -1
+            return (f'stored frame {o + 1} (segment, tile) = {meta[o] if o >= 0 else "?"} is not the part of the total '
+                    f'pixel matrix under that tile ({c["rows"]}x{c["cols"]} in tiles of {c["th"]}x{c["tw"]})')
     return None
 
 
@@ -1395,7 +1653,7 @@ def shrink(c):
     if c['ts'] != 'explicit' and not (c['ty'] == 'BINARY' and c.get('which') == 'binary_encaps'):
         yield dict(c, ts='explicit')
     # drop a plane
-    if P > 1 and c['nsrc'] == P and not c['two_d']:
+    if P > 1 and c['nsrc'] == P and not c['two_d'] and c['source'] != 'sm':
         for p in range(P):
             zr = [z for i, z in enumerate(c['zrank']) if i != p]
             order = sorted(range(P - 1), key=lambda i: zr[i])
